@@ -951,6 +951,46 @@ impl<'a, 'ast> Visit<'ast> for Ed<'a> {
                 }
             }
         }
+        // E22 (cont.): `opt.map_or_else(|| a, |p| b)` -> `match opt { Some(p) => b, None => a }`;
+        // `opt.filter(|p| cond)` -> `match opt { Some(v) => if { let p = &v; cond } { Some(v) } else { None }, None => None }`
+        if self.dir.inline_option && e.method == "map_or_else" && e.args.len() == 2 {
+            if let (syn::Expr::Closure(cd), syn::Expr::Closure(cf)) = (&e.args[0], &e.args[1]) {
+                if cd.inputs.is_empty() && cf.inputs.len() == 1 {
+                    self.closure_idx += 2;
+                    let rs = e.receiver.span().byte_range();
+                    let es = e.span().byte_range();
+                    let ds = cd.body.span().byte_range();
+                    let fs = cf.body.span().byte_range();
+                    let pat = self.src[cf.inputs[0].span().byte_range()].to_string();
+                    // source order is `default` then `f`: the emitted match keeps both texts in place
+                    self.push(rs.start, rs.start, "(match ", "E22-option-combinator-inlined", false);
+                    self.push(rs.end, ds.start, " { None => ", "E22-option-combinator-inlined", true);
+                    self.push(ds.end, fs.start, format!(", Some({pat}) => "), "E22-option-combinator-inlined", true);
+                    self.push(fs.end, es.end, " })", "E22-option-combinator-inlined", true);
+                    self.visit_expr(&e.receiver);
+                    self.visit_expr(&cd.body);
+                    self.visit_expr(&cf.body);
+                    return;
+                }
+            }
+        }
+        if self.dir.inline_option && e.method == "filter" && e.args.len() == 1 {
+            if let syn::Expr::Closure(c) = &e.args[0] {
+                if c.inputs.len() == 1 {
+                    self.closure_idx += 1;
+                    let rs = e.receiver.span().byte_range();
+                    let es = e.span().byte_range();
+                    let bs = c.body.span().byte_range();
+                    let pat = self.src[c.inputs[0].span().byte_range()].to_string();
+                    self.push(rs.start, rs.start, "(match ", "E22-option-combinator-inlined", false);
+                    self.push(rs.end, bs.start, format!(" {{ Some(vx_some) => if {{ let {pat} = &vx_some; "), "E22-option-combinator-inlined", true);
+                    self.push(bs.end, es.end, " } { Some(vx_some) } else { None }, None => None })", "E22-option-combinator-inlined", true);
+                    self.visit_expr(&e.receiver);
+                    self.visit_expr(&c.body);
+                    return;
+                }
+            }
+        }
         // E15: `cond.then(|| body)` with a closure that captures `&mut` state (rejected by Verus) is
         // replaced by the std definition of `bool::then`: `if cond { Some(body) } else { None }`
         if e.method == "then" && e.args.len() == 1 {
